@@ -9,6 +9,7 @@ kid   = ['t', s] | ['dt', s] | ['tab'] | ['br'] | ['cr'] | ['ref', id] | ['other
 The reader (bytes -> doc) uses lxml + zipfile only: no python-docx, no adeu code.  It is the abstraction function the
 correspondence and every oracle rest on (trusted; exercised by build -> read round trips on every generated case)."""
 import io, re, zipfile, copy
+from harness import core
 from lxml import etree
 
 W = 'http://schemas.openxmlformats.org/wordprocessingml/2006/main'
@@ -356,7 +357,7 @@ def acc_atoms(at):
 def text_of(at): return ''.join(a[1] for a in at if a[0] == 'ch')
 
 # ----------------------------------------------------------------------------- model syntax (s-expressions of integers)
-def sx_str(s): return '(' + ' '.join(str(ord(c)) for c in s) + ')'
+def sx_str(s): core.USED.update(s); return '(' + ' '.join(str(ord(c)) for c in s) + ')'
 def sx_kid(k):
     t = k[0]
     if t == 't': return '(0 %s)' % sx_str(k[1])
